@@ -46,6 +46,9 @@ META = {
     "C15": dict(engine="fiberx+rt", technique="runtime monitoring: reader/writer overlap counters, grant counter, both-modes-free-at-end check, deadlock detection; all four option combinations, with and without symmetric transfer; TSan/ASan real-thread passes",
                 text="Held on the executions explored: 2-6 reader/writer coroutines x 1-3 rounds x 8 locking forms on 1-3 workers.",
                 note="Executors keep accepting work until every coroutine finished.", ref="DESIGN.md §3 C14/C15"),
+    "C17": dict(engine="repro", technique="runtime monitoring: record/compare of complete fiber-switch traces (YACLIB_VERIF resume hook), client event logs, random-draw and injected-yield counts across re-runs, process boundaries (exec, ASLR, perturbed heap, wall-clock noise) and checkpoint/restore",
+                text="Held on the executions explored: 5 client programs x thousands of (seed, frequency, pick width, tick, CAS-fail frequency) configurations, three comparison kinds each.",
+                note="Anything that does not alter the resume sequence, virtual time, draw counts or client events is invisible to the comparison.", ref="DESIGN.md §3 C17"),
 }
 
 ALL = ["C%02d" % i for i in range(1, 21)]
